@@ -113,10 +113,22 @@ pub fn register(m: &mut HashMap<&'static str, OpFn>) {
     });
     m.insert("gp.rs_frombytes", |a| {
         let b = a.b32(0);
+        let mut o = Vec::new();
         match Option::<RistrettoPoint>::from(<RistrettoPoint as GroupEncoding>::from_bytes(&b)) {
-            Some(p) => vec!["some".into(), hex(&GroupEncoding::to_bytes(&p))],
-            None => vec!["none".into()],
+            Some(p) => {
+                o.push("some".into());
+                o.push(hex(&GroupEncoding::to_bytes(&p)));
+            }
+            None => o.push("none".into()),
         }
+        match Option::<RistrettoPoint>::from(<RistrettoPoint as GroupEncoding>::from_bytes_unchecked(&b)) {
+            Some(p) => {
+                o.push("some".into());
+                o.push(hex(&GroupEncoding::to_bytes(&p)));
+            }
+            None => o.push("none".into()),
+        }
+        o
     });
     // cofactor group ops on an Edwards point
     m.insert("gp.cofactor", |a| {
